@@ -74,3 +74,4 @@ package hashing
 //@ func HashFile(filePath) (h, err)
 //@   pure
 //@   ensures [digest_of_content] err == nil ==> has(fsIsFile, filePath) && h == H(select(fsData, filePath))
+//@   ensures [reads_only] fsData == old(fsData) && fsExec == old(fsExec) && fsIsFile == old(fsIsFile)
